@@ -3,6 +3,7 @@ import AdfObdd.FeatureNg
 import AdfObdd.FeatureLog
 import AdfObdd.CountsMore
 import AdfObdd.MemoCheckProofs
+import AdfObdd.FeatureDepsCard
 /-! # C12 — answers are independent of the cargo feature configuration
 
 Model: `FeatureVariants.lean` carries BOTH bodies of every `cfg(feature = …)` split of
@@ -24,7 +25,35 @@ Sections: (a)–(d) diagram operations and the four queries; (e) every semantics
 complete, stable, counting search a/b, nogood search with every heuristic) over the configured
 store, by a simulation `Rel c z fs s → same vectors, Rel again` (`FeatureSemantics`,
 `FeatureSearch`, `FeatureNg`); (f) the `frontend` channel (`FeatureLog`); (g) path cubes, impacts,
-imported stores (with and without `fix_import`), `models` after `fix_import` + new nodes. -/
+imported stores (with and without `fix_import`), `models` after `fix_import` + new nodes.
+
+## Scope and assumptions (second review, C12 rows 1-3)
+
+* **`var_dependencies` is a set in Rust, a list here.** `var_dependencies_feature_independent` is a
+  MEMBERSHIP statement; the list without `variablelist` repeats variables (`x0 ⊕ x1`: `[0, 1, 1]`).
+  Consumers of `.len()` (`facet_count`, adf.rs:741) are covered by `var_dependencies_card…`: the
+  number of distinct entries (`eraseDups.length`) is the number of essential variables.
+* **`Bdd::recv` (obdd/frontend.rs:63-94, only with `frontend`) is NOT modelled in this file.** It
+  pushes received nodes to `nodes`/`cache` and forwards them, but updates neither `var_deps` nor
+  `count_cache`; with `variablelist`/`adhoccounting` a later `node`/`restrict`/query on such a node
+  indexes `var_deps` out of range or hits `expect("Cache corrupted")`. The invariant `FInv` (tables
+  as long as the node table, `CntFull`) therefore does not survive `recv`, and every theorem of this
+  file is about stores reached by `new`, the operations, the queries, `fix_import` and
+  `set_sender` ONLY. The receiving side is C19's subject (`Stream*`), under the feature-free store.
+* **The channel behind `set_sender` is assumed unbounded**: the log `FStore.log` is a list to which
+  `nodeC` always appends. The sender is supplied by the caller; with a bounded crossbeam channel
+  `send` in `node` (obdd.rs:288-371) would block when the consumer lags — a liveness matter outside
+  the model; a disconnected receiver makes `send` return `Err`, which the code only logs (the model's
+  log then records what was attempted, not what was delivered).
+* **Totalised lookups where Rust panics.** `lookupCN` (= `count_cache.get(..).expect(..)`,
+  obdd.rs:379,395,412) defaults to `CN.zero`; `fs.deps.getD t []` (= `var_deps[t]`, obdd.rs:222
+  and `var_dependencies`) defaults to `[]`; `nodeC` leaves the cache unchanged when a child has no
+  entry (= `expect("Cache corrupted")`, obdd.rs:322,324). None of the defaults is reachable under
+  `FInv` (`DepsOK` gives the table the node table's length, `CntFull` an entry per handle), which
+  every theorem assumes or derives; OUTSIDE `FInv` (foreign handle, import without `fix_import` —
+  section (g) `import_without_fix…` states exactly which queries are then still right) the model
+  returns the default where the implementation aborts, so no theorem here may be read as "does not
+  panic" for such inputs. -/
 namespace C12
 
 /-! ## (a) `restrict` and `if_then_else`: the `variablelist` shortcut changes neither handle nor node table -/
@@ -79,6 +108,44 @@ theorem deps_table_exact :
 theorem var_dependencies_feature_independent (c : Cfg) (z : Bool) (fs : FStore) (inv : FInv c z fs) (t : Nat)
     (ht : t < fs.base.nodes.size) (x : Nat) :
     x ∈ varDepsC c fs t ↔ x ∈ depsOf fs.base t := varDepsC_exact c z fs t inv ht x
+
+/-- **cardinality** (`facet_count`, adf.rs:741, and the heuristics read `var_dependencies(..).len()`;
+the Rust value is a `HashSet` in both builds, the model value a list which without `variablelist`
+repeats a variable once per occurrence — `x0 ⊕ x1`: `[0, 1, 1]`, example below). The number of
+DISTINCT entries of the model's list — the `.len()` of the set the code builds — is, under every
+feature set, the number of variables the diagram's function depends on: the length of any
+duplicate-free enumeration `L` of the essential variables -/
+theorem var_dependencies_card (c : Cfg) (z : Bool) (fs : FStore) (inv : FInv c z fs) (t : Nat)
+    (ht : t < fs.base.nodes.size) (L : List Nat) (hL : L.Nodup)
+    (hE : ∀ x, x ∈ L ↔ Essential (eval fs.base t) x) :
+    (varDepsC c fs t).eraseDups.length = L.length :=
+  DepsCard.varDepsC_card c z fs inv t ht L hL hE
+
+/-- the same with the enumeration written out: the essential variables among `0 … n-1`
+(`DepsCard.essentialBelow f n = (List.range n).filter (Essential f)`, classical), for every `n`
+above the listed variables -/
+theorem var_dependencies_card_range (c : Cfg) (z : Bool) (fs : FStore) (inv : FInv c z fs) (t : Nat)
+    (ht : t < fs.base.nodes.size) (n : Nat) (hn : ∀ x ∈ depsOf fs.base t, x < n) :
+    (varDepsC c fs t).eraseDups.length = (DepsCard.essentialBelow (eval fs.base t) n).length :=
+  DepsCard.varDepsC_card c z fs inv t ht _ (DepsCard.essentialBelow_nodup _ n)
+    (DepsCard.mem_essentialBelow _ n (DepsCard.essential_lt_of_deps fs.base inv.wf t ht n hn))
+
+/-- hence the cardinality is the same under any two feature sets on stores with the same node
+table, and equal to that of the recursive list -/
+theorem var_dependencies_card_feature_independent (c : Cfg) (z : Bool) (fs : FStore) (inv : FInv c z fs) (t : Nat)
+    (ht : t < fs.base.nodes.size) :
+    (varDepsC c fs t).eraseDups.length = (depsOf fs.base t).eraseDups.length :=
+  DepsCard.distinct_congr (varDepsC_exact c z fs t inv ht)
+
+/-- the maintained table stays duplicate-free entry by entry (`node` pushes, `fix_import`
+regenerates), so under `variablelist` the length of the entry itself is the cardinality -/
+theorem deps_table_nodup :
+    (∀ (tbl : Array (List Nat)), (∀ l ∈ tbl.toList, l.Nodup) → ∀ (v lo hi : Nat),
+      ∀ l ∈ (tbl.push (depsEntry tbl v lo hi)).toList, l.Nodup) ∧
+    (∀ (ns : Array Node), ∀ l ∈ (genDeps #[] ns).toList, l.Nodup) ∧
+    (∀ l : List Nat, l.Nodup → l.eraseDups.length = l.length) :=
+  ⟨DepsCard.nodup_push_depsEntry, fun ns => DepsCard.nodup_genDeps ns #[] (by simp),
+   fun _ h => DepsCard.distinct_of_nodup h⟩
 
 /-! ## (c) counts -/
 
@@ -280,6 +347,31 @@ example : FInv Cfg.default true (runOpsC Cfg.default [.var 0] (newC Cfg.default)
   refine ⟨c, rfl, ?_⟩
   rw [b]
   simp [runOps, stepOp, mkNode, Store.init]
+
+/-- the hypotheses of the cardinality theorems hold on the store of `x0, x1, x0 ⊕ x1` under every
+feature set, and every issued handle (the last one, 5, is the ⊕) is in range -/
+example (c : Cfg) : FInv c true (runOpsC c [.var 0, .var 1, .xor 2 3] (newC c) [0, 1]).1 ∧
+    ∀ t ∈ (runOps [.var 0, .var 1, .xor 2 3] Store.init [0, 1]).2,
+      t < (runOpsC c [.var 0, .var 1, .xor 2 3] (newC c) [0, 1]).1.base.nodes.size := by
+  have hv : opsValid [.var 0, .var 1, .xor 2 3] 2 :=
+    ⟨by simp [Op.valid, VBOT], by simp [Op.valid, VBOT], by simp [Op.valid], trivial⟩
+  have ⟨_, b, i⟩ := node_tables_feature_independent c [.var 0, .var 1, .xor 2 3] hv
+  refine ⟨i, ?_⟩
+  rw [b]
+  have ⟨_, _, h3⟩ := runOps_refines [.var 0, .var 1, .xor 2 3] Store.init [0, 1] _ WF_init HistOK.init hv
+  exact fun t ht => mem_hist_lt h3 t ht
+#guard (runOps [.var 0, .var 1, .xor 2 3] Store.init [0, 1]).2 == [0, 1, 2, 3, 5]
+
+/-- the node table that run produces (checked by evaluation below): x0, x1, ¬x1, x0 ⊕ x1 -/
+def xorTable : Array Node := #[⟨VBOT, 0, 0⟩, ⟨VTOP, 1, 1⟩, ⟨0, 0, 1⟩, ⟨1, 0, 1⟩, ⟨1, 1, 0⟩, ⟨0, 3, 4⟩]
+#guard (runOps [.var 0, .var 1, .xor 2 3] Store.init [0, 1]).1.nodes == xorTable
+#guard varDepsC Cfg.none (runOpsC Cfg.none [.var 0, .var 1, .xor 2 3] (newC Cfg.none) [0, 1]).1 5 == [0, 1, 1]
+#guard varDepsC Cfg.default (runOpsC Cfg.default [.var 0, .var 1, .xor 2 3] (newC Cfg.default) [0, 1]).1 5 == [0, 1]
+
+/-- on that table the recursive list has a duplicate (length 3) and two distinct entries: the
+membership statement alone does not determine `.len()`, the cardinality statement does -/
+example : depsOf ⟨xorTable, ∅, ∅, ∅⟩ 5 = [0, 1, 1] ∧ (depsOf ⟨xorTable, ∅, ∅, ∅⟩ 5).eraseDups.length = 2 ∧
+    depsEntry #[[], [], [0], [1], [1]] 0 3 4 = [0, 1] := by decide +kernel
 
 /-- `fix_import_establishes` applies to the initial tables -/
 example : WF ⟨Store.init.nodes, Store.init.uniq, ∅, ∅⟩ := WF_init
@@ -679,3 +771,7 @@ end C12
 #print axioms C12.semantics_example
 #print axioms C12.frontend_example
 #print axioms C12.import_example
+#print axioms C12.var_dependencies_card
+#print axioms C12.var_dependencies_card_range
+#print axioms C12.var_dependencies_card_feature_independent
+#print axioms C12.deps_table_nodup
